@@ -373,7 +373,7 @@ kv_add_event = REG.unit(Unit(
              raises={"StorageError": True, "AuthenticationError": True, "Exception+": True},
              exc_ensures={k: [("refused-event-leaves-no-trace", "ghost('n_enqueued') == 0 and ghost('n_broadcast_local') == 0")]
                           for k in ("StorageError", "AuthenticationError", "Exception+")}),
-    props=["C03", "C14", "C16", "C06", "C17"], ghost_init=ghost_kv,
+    props=["C03", "C05", "C14", "C16", "C06", "C17", "C19"], ghost_init=ghost_kv,
     canaries=[("never-accepts", "False")],
 ))
 kv_add_event.obligation_props = [
